@@ -25,7 +25,7 @@ func (S) Level() string { return "exploration" }
 
 func (S) Info() scen.Info {
 	return scen.Info{
-		Rule: "unit = one -race child process: shared objects (generic tree, reflection-bound struct with type and representation views, generated-code node, compiled selector, type system, shared prototype, default multicodec registry, link system over a read-only store (memstore or the filesystem store on real files), one *traversal.Config) built on the main goroutine, then 2-6 tasks of 3-10 seeded read-only operations each (43 operation kinds, including all four load functions, encoding into a writer that fails, decoding through shared prototypes, and transforms that read shared nodes) interleaved by the blind-baton scheduler at function-entry yields inside the library; three profiles (fully configured / Config relying on defaults / inferred schemas as well). " +
+		Rule: "unit = one -race child process: shared objects (generic tree, reflection-bound struct with type and representation views, generated-code node, compiled selector, type system, shared prototype, default multicodec registry, link system over a read-only store (memstore or the filesystem store on real files), one *traversal.Config) built on the main goroutine, then 2-6 tasks of 3-10 seeded read-only operations each (45 operation kinds, including all four load functions, encoding into a writer that fails, decoding through shared prototypes, and transforms that read shared nodes) interleaved by the blind-baton scheduler at function-entry yields inside the library; three profiles (fully configured / Config relying on defaults / inferred schemas as well). " +
 			"distinct_nontrivial counts distinct hash(profile, per-task operation lists, interleaving hash) over runs with at least 2 scheduler switches between tasks. Later additions: LinkVisitOnlyOnce on the shared Config, a shared stream-backed bytes node, shared nodes of the vocabulary shapes of C19, shared seeded selectors.",
 		DistinctSet: "schedule",
 		Assumptions: []string{
